@@ -380,6 +380,21 @@ CLAIMED = {
             'C02\'s clause; frexp/ldexp are CPython\'s.',
             'Gradual underflow (denormals) is outside what to_float documents and is not decided.',
             'DESIGN.md section 10 (C09)'),
+    'C39': ('N-class-domain',
+            'static analysis: abstract interpretation of the helpers\' syntax trees over the finite partition of '
+            'numbers into representation classes (zero, +inf, -inf, nan, normal by sign and sign of the exponent), '
+            'symbolic (affine) evaluation of mag / ldexp / frexp, closed-form grid evaluation for ints and rationals',
+            'isnan, isinf, isnormal, isint (incl. gaussian), isnpint and isfinite are interpreted once per class of '
+            'mpf (10), per pair of classes of mpc (100), per class of Python int (3) and of reduced rational (5) and '
+            'compared with their specification - exhaustive over the abstraction, because the helpers look at a number '
+            'only through class-determined tests (anything else stops the run as an analysis error; a type without its '
+            'own branch is followed through ctx.convert into every mpf class the conversion can produce).  mag is '
+            'evaluated symbolically: exp+bc+c with c in {0,1} for a normal mpf, max(..)+1 exactly for a complex number '
+            'with two non-zero parts, -inf / +inf for zero / infinities.  ldexp and frexp are exact field rewrites '
+            '(exponent + n; exponent -bc with e = exp+bc).  nint_distance is NOT decided (bit manipulation of the '
+            'mantissa); fp and iv contexts and Python floats (C09) are outside the clause.',
+            'Assumes canonical raw values (C01) and reduced rationals; trusts the interpreter in sa/classdom.py.',
+            'DESIGN.md section 10 (C39)'),
     'C08': ('W-printing',
             'static analysis: evaluation of the digit-count formulas from their syntax tree over all precisions '
             '1..20000 against the uniqueness bound, freshness/wiring rules for the digit counts used by repr/str, '
